@@ -39,7 +39,8 @@ ASSUMPTIONS = [
     "energies compared relative to |eps|^2 |C|, stresses relative to |eps| |C| (absolute floor for the zero state)",
     "nearly repeated principal values (relative gap 1e-14 .. 1e-6) are held to 1e-6 instead of 1e-9: the closed-form eigenprojectors lose (eps_mach / gap)^2",
     "history monotonicity is judged between saved steps, tolerance 1e-12 of the largest value",
-    "the material is homogeneous",
+    "heterogeneous materials: isotropic constants or a full Hooke matrix per element / per integration point, each point judged against a homogeneous material holding its constants; Gc and l0 homogeneous",
+    "the fourth-order projector is compared with difference quotients of the eigh-based positive part wherever no principal value is within 5 % of zero (repeated and nearly repeated values included, tolerance 1e-5 there)",
 ]
 TIMEOUT_CASE = 600
 MIN_EVALS = {"finite": 50, "partition-stress": 50, "partition-energy": 50, "projector-vs-eigh": 20, "history-monotone": 10}
@@ -76,6 +77,17 @@ def cases(tier: str, seed: int) -> list[dict]:
                     if r % 3 == ("trans", "ortho", "aniso").index(mat) or tier != "quick":
                         out.append({"fam": "states", "split": split, "mat": mat, "dim": dim, "ps": ps})
                         out.append({"fam": "states", "split": split, "mat": mat, "dim": dim, "ps": ps, "modify": True})
+    # heterogeneous materials: elastic constants given per element or per integration point (homogeneous Gc, l0)
+    for r in range(rep):
+        for dim, ps in ((2, True), (2, False), (3, False)):
+            for si, split in enumerate(SPLITS_ISO):
+                for hi, het in enumerate(("e", "ep")):
+                    if tier != "quick" or (si + hi + dim + int(ps)) % 2 == 0:
+                        out.append({"fam": "states", "split": split, "mat": "iso", "dim": dim, "ps": ps, "het": het})
+            for si, split in enumerate(SPLITS_ANISO):
+                for hi, het in enumerate(("e", "ep")):
+                    if tier != "quick" or (si + hi + dim + int(ps)) % 3 == 0:
+                        out.append({"fam": "states", "split": split, "mat": "aniso", "dim": dim, "ps": ps, "het": het})
     hist = []
     for solver in ("History", "HistoryDamage", "BoundConstrain"):
         for regu in ("AT2", "AT1"):
@@ -86,11 +98,15 @@ def cases(tier: str, seed: int) -> list[dict]:
             hist.append({"fam": "history", "solver": solver, "regu": regu, "split": "Amor", "dim": 2, "et": "QUAD4+TRI3", "program": "cycle"})
             hist.append({"fam": "history", "solver": solver, "regu": regu, "split": "Miehe", "dim": 2, "et": "TRI3", "program": "zero"})
             hist.append({"fam": "history", "solver": solver, "regu": regu, "split": "Amor", "dim": 3, "et": "TETRA4", "program": "zero"})
+            # Young's modulus given per element
+            for split, dim, et in (("Bourdin", 2, "TRI3"), ("He", 2, "QUAD4"), ("Zhang", 2, "TRI3"), ("AnisotStress", 2, "TRI3"), ("Miehe", 3, "TETRA4")):
+                if regu == "AT2":  # (AT1 from the virgin state is the singular damage system already listed as a finding)
+                    hist.append({"fam": "history", "solver": solver, "regu": regu, "split": split, "dim": dim, "et": et, "program": "cycle", "het": True})
     nh = 1 if tier == "quick" else 6
     for r in range(nh):
         out += [dict(h) for h in hist]
     for i, c in enumerate(out):
-        tag = f"{c['split']}-{c['mat']}-{c['dim']}D{'ps' if c['ps'] else ''}" if c["fam"] == "states" else f"{c['solver']}-{c['regu']}-{c['split']}-{c['et']}-{c['program']}"
+        tag = f"{c['split']}-{c['mat']}-{c['dim']}D{'ps' if c['ps'] else ''}{'-het-' + c['het'] if c.get('het') else ''}" if c["fam"] == "states" else f"{c['solver']}-{c['regu']}-{c['split']}-{c['et']}-{c['program']}{'-het' if c.get('het') else ''}"
         c["id"] = f"C17-{i:05d}-{c['fam']}-{tag}"
         c["index"] = i
     for c in _suite.suite_cases(PROP, tier):
@@ -289,6 +305,8 @@ def run_states(case, ctx, rng):
                 law, _ = gmat.make_law(rng, dim, matk, planeStress=ps)
             model = Models.PhaseField(law, split, "AT2", Gc=1.0, l0=0.1)
     Ne, nPg = int(rng.integers(12, 20)), int(rng.choice([1, 3, 4, 6]))
+    if case.get("het"):
+        return run_states_het(case, ctx, rng, Ne, nPg, key0)
     nclasses = _evaluate_states(ctx, rng, model, law, split, dim, Ne, nPg, key0)
     if case.get("modify"):
         # the elastic constants are changed after the split has been used once; the model is evaluated BEFORE the harness reads
@@ -312,7 +330,97 @@ def run_states(case, ctx, rng):
                  Ne=Ne, nPg=nPg, classes=nclasses)
 
 
-def _evaluate_states(ctx, rng, model, law, split, dim, Ne, nPg, key0):
+class _LocalLaw:
+    """What `reference` reads from a law, for the constants held at one element / integration point."""
+
+    def __init__(self, C, E=None, v=None, planeStress=False):
+        self.C, self.E, self.v, self.planeStress = np.asarray(C, float), E, v, planeStress
+
+    def get_mu(self):
+        return self.E / (2 * (1 + self.v))
+
+    def get_lambda(self):
+        lam = self.E * self.v / ((1 + self.v) * (1 - 2 * self.v))
+        return self.E * self.v / (1 - self.v**2) if self.planeStress else lam
+
+    def get_bulk(self, dim=None):
+        raise NotImplementedError
+
+
+def _iso_C(dim, E, v, ps):
+    """Hooke matrix of an isotropic material in Kelvin-Mandel notation, written out by the harness."""
+    mu = E / (2 * (1 + v))
+    lam = E * v / ((1 + v) * (1 - 2 * v))
+    if dim == 2 and ps:
+        lam = E * v / (1 - v**2)
+    n = 3 if dim == 2 else 6
+    C = np.zeros((n, n))
+    C[:dim, :dim] = lam
+    C[np.arange(n), np.arange(n)] += 2 * mu
+    return C
+
+
+def run_states_het(case, ctx, rng, Ne, nPg, key0):
+    """Elastic constants that differ from element to element (or from integration point to integration point): every point is
+    judged against the split of a homogeneous material holding that point's constants."""
+    split, matk, dim, ps, het = case["split"], case["mat"], case["dim"], case["ps"], case["het"]
+    key0 = f"{key0}/heterogeneous-{'per-element' if het == 'e' else 'per-point'}"
+    ctx.default_key = key0
+    shape = (Ne,) if het == "e" else (Ne, nPg)
+    n = 3 if dim == 2 else 6
+    with ctx.monitored("no-exception", key0 + "/build/raised"):
+        with quiet():
+            if matk == "iso":
+                E, v = rng.uniform(50, 300, size=shape), rng.uniform(0.1, 0.4, size=shape)
+                law = Models.Elastic.Isotropic(dim, E=E.copy(), v=v.copy(), planeStress=ps)
+                Eb, vb = np.broadcast_to(E.reshape(shape + (1,) * (2 - len(shape))), (Ne, nPg)), np.broadcast_to(v.reshape(shape + (1,) * (2 - len(shape))), (Ne, nPg))
+                Cloc = np.array([[_iso_C(dim, float(Eb[e, p]), float(vb[e, p]), ps) for p in range(nPg)] for e in range(Ne)])
+            else:
+                Cs = np.array([gmat.random_spd(rng, n) for _ in range(int(np.prod(shape)))]).reshape(shape + (n, n))
+                a1, a2 = gmat.random_axes(rng, dim, generic=False)
+                law = Models.Elastic.Anisotropic(dim, Cs.copy(), False, axis1=a1, axis2=a2)
+                Cloc = np.broadcast_to(Cs.reshape(shape + (1,) * (2 - len(shape)) + (n, n)), (Ne, nPg, n, n)).copy()
+                Eb = vb = None
+            model = Models.PhaseField(law, split, "AT2", Gc=1.0, l0=0.1)
+
+    def local(e, p):
+        if Eb is None:
+            return _LocalLaw(Cloc[e, p])
+        ll = _LocalLaw(Cloc[e, p], float(Eb[e, p]), float(vb[e, p]), ps and dim == 2)
+        # bulk modulus as the homogeneous law defines it: lambda + 2 mu / dim with the (plane-stress corrected) lambda
+        ll.get_bulk = lambda: ll.get_lambda() + 2 * ll.get_mu() / dim  # noqa: E731
+        return ll
+
+    # the harness' Hooke matrices must be the library's (C11 judges the law itself): a mismatch here would make every oracle below meaningless
+    Clib = np.asarray(law.C, float)
+    Clib = np.broadcast_to(Clib.reshape(shape + (1,) * (2 - len(shape)) + (n, n)), (Ne, nPg, n, n))
+    ctx.check("law-as-given", float(np.abs(Clib - Cloc).max() / np.abs(Cloc).max()), 1e-10, key0 + "/law.C")
+    nclasses = _evaluate_states(ctx, rng, model, law, split, dim, Ne, nPg, key0, local=local, Cloc=Cloc)
+    ctx.event("states-heterogeneous")
+    ctx.describe(f"states/{split}/{matk}/{dim}D/{'ps' if ps else 'pe'}/het-{het}", nclasses >= 3, split=split, mat=matk, dim=dim, Ne=Ne, nPg=nPg, classes=nclasses, het=het)
+
+
+def _reference_local(split, local, eps, dim):
+    Ne, nPg = eps.shape[:2]
+    out = None
+    for e in range(Ne):
+        for p in range(nPg):
+            r = reference(split, local(e, p), eps[e:e + 1, p:p + 1], dim)
+            if out is None:
+                out = {k: (None if v is None else (tuple(np.zeros((Ne, nPg) + x.shape[2:]) for x in v) if isinstance(v, tuple) else np.zeros((Ne, nPg) + v.shape[2:])))
+                       for k, v in r.items()}
+            for k, v in r.items():
+                if v is None:
+                    continue
+                if isinstance(v, tuple):
+                    for o, x in zip(out[k], v):
+                        o[e, p] = x[0, 0]
+                else:
+                    out[k][e, p] = v[0, 0]
+    return out
+
+
+def _evaluate_states(ctx, rng, model, law, split, dim, Ne, nPg, key0, local=None, Cloc=None):
     eps, cls = strain_states(rng, dim, Ne, nPg)
     eps_in = eps.copy()
     from EasyFEA.FEM import FeArray
@@ -321,8 +429,9 @@ def _evaluate_states(ctx, rng, model, law, split, dim, Ne, nPg, key0):
             pP, pM = model.Calc_psi_e_pg(FeArray.asfearray(eps.copy()))
             sP, sM = model.Calc_Sigma_e_pg(FeArray.asfearray(eps.copy()))
             cP, cM = model.Calc_C(FeArray.asfearray(eps.copy()))
-    ref = reference(split, law, eps, dim)
-    Cn = float(np.abs(np.asarray(law.C)).max())
+    ref = reference(split, law, eps, dim) if local is None else _reference_local(split, local, eps, dim)
+    Cfull = np.asarray(law.C, dtype=float) if Cloc is None else Cloc
+    Cn = float(np.abs(Cfull).max())
     e2 = np.einsum("...i,...i->...", eps, eps)
     floor = 1e-300
     cP, cM, sP, sM, pP, pM = (np.asarray(x, dtype=float) for x in (cP, cM, sP, sM, pP, pM))
@@ -340,16 +449,25 @@ def _evaluate_states(ctx, rng, model, law, split, dim, Ne, nPg, key0):
             lam_ = np.linalg.eigvalsh(to_tensor(v0, dim))
             gap = np.diff(lam_, axis=-1).min(-1)
             amp = np.abs(lam_).max(-1)
-            well = (gap > 0.15 * amp) & (amp > 0) & (np.abs(lam_).min(-1) > 0.05 * amp)
-            if well.any():
+            # the positive part is a smooth function of the tensor wherever no principal value is zero - repeated values included
+            # (the difference quotient (l1+ - l2+) / (l1 - l2) of the closed form has the limit H(l) there); the quotient of two
+            # eigh-based positive parts is clean at such points whatever the gaps are
+            smooth = (amp > 0) & (np.abs(lam_).min(-1) > 0.05 * amp)
+            well = smooth & (gap > 0.15 * amp)
+            rep = smooth & ~well
+            if well.any() or rep.any():
                 Pj = np.asarray(pj, float)
                 nd_ = v0.shape[-1]
                 Pfd = np.zeros(Pj.shape)
                 for j_ in range(nd_):
                     hh = 1e-6 * amp[..., None] * np.eye(nd_)[j_]
                     Pfd[..., :, j_] = (pos_neg(v0 + hh, dim)[0] - pos_neg(v0 - hh, dim)[0]) / (2e-6 * amp[..., None])
-                ctx.check("projector-derivative", float(np.abs(Pj[well] - Pfd[well]).max()), 1e-6, key0 + "/P+=d(v+)/dv", n=int(well.sum()),
-                          mixed_sign=bool(((lam_[well].min(-1) < 0) & (lam_[well].max(-1) > 0)).any()))
+                if well.any():
+                    ctx.check("projector-derivative", float(np.abs(Pj[well] - Pfd[well]).max()), 1e-6, key0 + "/P+=d(v+)/dv", n=int(well.sum()),
+                              mixed_sign=bool(((lam_[well].min(-1) < 0) & (lam_[well].max(-1) > 0)).any()))
+                if rep.any():
+                    ctx.check("projector-derivative", float(np.abs(Pj[rep] - Pfd[rep]).max()), 1e-5, key0 + "/P+=d(v+)/dv@repeated-or-close-values", n=int(rep.sum()),
+                              exactly_repeated=int((gap[rep] == 0).sum()), mixed_sign=bool(((lam_[rep].min(-1) < 0) & (lam_[rep].max(-1) > 0)).any()))
         except Exception as e:  # noqa: BLE001
             ctx.require("projector-vs-eigh", False, key0 + "/projector/raised", raised=type(e).__name__, message=str(e)[:200])
     nclasses = 0
@@ -374,12 +492,24 @@ def _evaluate_states(ctx, rng, model, law, split, dim, Ne, nPg, key0):
             if not fin:
                 continue
             ctx.check("partition-stress", float(np.abs(sP[mm] + sM[mm] - ref["sig"][mm]).max()) / sscale, tol, k + "/sigma-sum")
-            ctx.check("partition-stiffness", float(np.abs(cP[mm] + cM[mm] - np.asarray(law.C)).max()) / Cn, tol, k + "/C-sum")
+            ctx.check("partition-stiffness", float(np.abs(cP[mm] + cM[mm] - (Cfull if Cfull.ndim == 2 else Cfull[mm])).max()) / Cn, tol, k + "/C-sum")
             ctx.check("partition-energy", float(np.abs(pP[mm] + pM[mm] - ref["psi"][mm]).max()) / pscale, tol, k + "/psi-sum")
             ctx.check("split-energy", float(np.abs(pP[mm] - ref["psiP"][mm]).max()) / pscale, tol, k + "/psi+")
             ctx.check("split-energy", float(np.abs(pM[mm] - ref["psiM"][mm]).max()) / pscale, tol, k + "/psi-")
             if ref["sigP"] is not None:
                 ctx.check("split-stress", float(np.abs(sP[mm] - ref["sigP"][mm]).max()) / sscale, tol, k + "/sigma+")
+            if ref["decomposed"] is not None and cname != "zero":
+                # a decomposed tensor without negative (positive) part carries no negative (positive) stress - whatever the split does with
+                # its cross terms, and also where principal values are repeated
+                lam_d = np.linalg.eigvalsh(to_tensor(ref["decomposed"][0][mm], dim))
+                amp_d = np.abs(lam_d).max(-1)
+                allpos, allneg = lam_d.min(-1) > 0.05 * amp_d, lam_d.max(-1) < -0.05 * amp_d
+                if allpos.any():
+                    ctx.check("one-signed-state", float(np.abs(sM[mm][allpos]).max()) / sscale, tol, k + "/sigma-@all-principal-values-positive", n=int(allpos.sum()))
+                    ctx.check("one-signed-state", float(np.abs(cM[mm][allpos]).max()) / Cn, tol, k + "/C-@all-principal-values-positive", n=int(allpos.sum()))
+                if allneg.any():
+                    ctx.check("one-signed-state", float(np.abs(sP[mm][allneg]).max()) / sscale, tol, k + "/sigma+@all-principal-values-negative", n=int(allneg.sum()))
+                    ctx.check("one-signed-state", float(np.abs(cP[mm][allneg]).max()) / Cn, tol, k + "/C+@all-principal-values-negative", n=int(allneg.sum()))
             if proj is not None:
                 dscale = np.abs(ref["decomposed"][0][mm]).max() + floor
                 if cname == "zero":
@@ -393,7 +523,7 @@ def _evaluate_states(ctx, rng, model, law, split, dim, Ne, nPg, key0):
 # ------------------------------------------------------------------------------------------
 def run_history(case, ctx, rng):
     solver, regu, split, dim, et, program = case["solver"], case["regu"], case["split"], case["dim"], case["et"], case["program"]
-    key0 = f"C17/history/{solver}/{regu}"
+    key0 = f"C17/history/{solver}/{regu}" + ("/heterogeneous" if case.get("het") else "")
     ctx.default_key = key0
     with ctx.monitored("no-exception", key0 + "/build/raised"):
         with quiet():
@@ -404,7 +534,8 @@ def run_history(case, ctx, rng):
                 Lx = 2.0
             else:
                 mesh, (Lx, Ly, h) = _sims.small_mesh(rng, dim, et, size=1.3)
-            mat = Models.Elastic.Isotropic(dim, E=210.0, v=0.3, planeStress=False, thickness=1.0)
+            E = rng.uniform(150.0, 270.0, size=mesh.Ne) if case.get("het") else 210.0
+            mat = Models.Elastic.Isotropic(dim, E=E, v=0.3, planeStress=False, thickness=1.0)
             pfm = Models.PhaseField(mat, split, regu, Gc=6e-3, l0=0.3, solver=solver)
             simu = Simulations.PhaseField(mesh, pfm)
     n0, nL = _sims.nodes_x(mesh, 0.0), _sims.nodes_x(mesh, Lx)
@@ -466,7 +597,7 @@ def run_history(case, ctx, rng):
                         unloaded_after_damage = True
                     dmax_seen = max(dmax_seen, float(d.max()))
     finally:
-        ctx.describe(f"history/{solver}/{regu}/{split}/{et}/{program}", unloaded_after_damage or program == "zero", solver=solver, regu=regu, split=split, et=et,
+        ctx.describe(f"history/{solver}/{regu}/{split}/{et}/{program}{'/het' if case.get('het') else ''}", unloaded_after_damage or program == "zero", solver=solver, regu=regu, split=split, et=et,
                      loads=[float(x) for x in loads], dmax=dmax_seen)
 
 
